@@ -231,14 +231,21 @@ def run_C08(rep, tier, rng):
 def run_C07(rep, tier, rng):
     nv, nm = (100, 1200) if tier == "quick" else (500, 20000)
     valid, mal = text_stream(rng, nv, nm)
-    big = []
     # size / nesting bounds of the property: 64 KiB, 2000 declarations, type nesting 256
-    big.append("start S0\n" + "".join(f"struct S{i} {{ a: S{(i + 1) % 1500} b: $T }}\n" for i in range(1500)) + "terminal K { $T: () }\n")
+    def chain(n):
+        return "start S0\n" + "".join(f"struct S{i} {{ a: S{(i + 1) % n} b: $T }}\n" for i in range(n)) + "terminal K { $T: () }\n"
     nest = "Vec<" * 256 + "u8" + ">" * 256
-    big.append(f"start S struct S terminal K {{ $T: {nest} }}\n")
-    big.append("start S struct S terminal K { }\n" + "// c\n" * 9000)
-    big.append("enum E {" + " ".join(f"V{i}" for i in range(2000)) + "} start E terminal K {}")
-    texts = corpus("C07") + valid + mal + (big if tier == "thorough" else big[1:3])
+    big = [f"start S struct S terminal K {{ $T: {nest} }}\n",
+           "start S struct S terminal K { }\n" + "// c\n" * 9000,
+           "enum E {" + " ".join(f"V{i}" for i in range(2000)) + "} start E terminal K {}",
+           chain(40 if tier == "quick" else 200)]
+    # at the bounds themselves the construction is quadratic (seconds, hundreds of MB of stage output), so these
+    # go through the public entry point of the implementation only, with a watchdog sized for them
+    bound = [chain(1500),
+             "start S0\n" + "".join(f"struct S{i}\n" for i in range(1998)) + "terminal K { $T: () }\n",
+             "start S struct S terminal K {\n" + "".join(f"  $T{i}: ()\n" for i in range(1990)) + "}\n",
+             "start S struct S terminal K { $T: () } //" + "é" * 32000] if tier == "thorough" else []
+    texts = corpus("C07") + valid + mal + big
     pairs = corr.run_stages(texts)
     dis, kinds = [], {}
     for t, (i, m) in zip(texts, pairs):
@@ -257,8 +264,22 @@ def run_C07(rep, tier, rng):
     for t, o in zip(sub, outs):
         if o.startswith("(panic") or o.startswith("(died") or o.startswith("(timeout"):
             rep.violation("generate panicked/aborted/did not return (public entry point, child process)", {"source": t[:4000], "impl": o[:300]})
+    if bound:
+        old = os.environ.get("KVH_TIMEOUT")
+        os.environ["KVH_TIMEOUT"] = "300"
+        try:
+            outs = kv.run_impl("generate", [kv.hexs(t) for t in bound])
+        finally:
+            if old is None:
+                del os.environ["KVH_TIMEOUT"]
+            else:
+                os.environ["KVH_TIMEOUT"] = old
+        for t, o in zip(bound, outs):
+            kinds["bound:" + o[1:].split(" ", 1)[0].rstrip(")")] = kinds.get("bound:" + o[1:].split(" ", 1)[0].rstrip(")"), 0) + 1
+            if o.startswith("(panic") or o.startswith("(died") or o.startswith("(timeout"):
+                rep.violation("generate panicked/aborted/did not return within 300 s on a file at the size bounds", {"source": t[:4000], "impl": o[:300]})
     report_disagreements(rep, dis, "stages (outcome class and every intermediate value)", "C07_no_panic / C07_terminates")
-    return {"evaluations": len(texts) + len(sub), "distinct_nontrivial": kv.distinct_count([t for t in texts if len(t) > 3]),
+    return {"evaluations": len(texts) + len(sub) + len(bound), "distinct_nontrivial": kv.distinct_count([t for t in texts if len(t) > 3]),
             "rule": "valid files (all fieldset shapes, variant-less enums, zero terminals, unproductive/unreachable nonterminals, multi-byte text) + mutated and raw malformed texts + size-bound files; every stage under catch_unwind, public generate() in a child process; non-trivial = longer than 3 chars",
             "samples": sample(mal[45:]), "outcome_kinds": kinds, "model_disagreements": len(dis)}
 
